@@ -5,9 +5,9 @@ cd "$(dirname "$0")/.."
 SCR=${R2C_SCRATCH:-/tmp/wt/r2c-repo}
 export VERIF_REPO=$SCR
 regen() { (cd driver && python3-vt -c "
-import translate, translate_src
-ch, d = translate.regenerate()
-for k, v in sorted(d['src_tie_broken'].items()): print('TieBroken', k, ':', v)
+import translate
+ch, errors = translate.regenerate_all()
+for k, v in sorted(errors.items()): print('TieBroken', k, ':', v)
 " 2>&1 | grep -v conda | tail -3); }
 # mutate <label> <file> <perl substitution> <module> <expect: FAIL:<lemma> | PASS>
 mutate() {
@@ -23,7 +23,8 @@ mutate() {
     lemma=$(head -n $line coq/Proofs/SrcEq$mod.v | grep -o 'Lemma [A-Za-z0-9_]*' | tail -1)
     verdict="FAIL:${lemma#Lemma }"
   else verdict="PASS"; fi
-  if [ -n "$out" ] && echo "$out" | grep -q TieBroken; then verdict="$verdict [$(echo "$out" | tail -1)]"; fi
+  # a fragment the translator refuses is not rewritten; the check run reports it for every property that depends on it
+  if [ -n "$out" ] && echo "$out" | grep -q TieBroken; then verdict="TIEBROKEN [$(echo "$out" | tail -1)]"; fi
   ok="ok"; case "$verdict" in "$expect"*) ;; *) ok="UNEXPECTED (expected $expect)";; esac
   echo "[$label] regenerated files changed: $changed ; make Proofs/SrcEq$mod.vo -> $verdict  $ok"
   git -C $SCR checkout -q -- .
@@ -47,7 +48,7 @@ mutate "index expr: sparse multiply col_start[j+1] -> [j]" src/sparse.rs 's/(let
 mutate "index expr: thomas c_temp[j-1] -> c_temp[j]"      src/tridiagonal.rs 's/gamma\[j\] = c_temp\[j - 1\] \/ beta;/gamma[j] = c_temp[j] \/ beta;/' Tridiag FAIL:src_tsolve
 mutate "pivot rule: banded abs() comparison -> signed"    src/banded.rs 's/if au\[\(j, 0\)\]\.abs\(\) > dum\.abs\(\) \{/if au[(j, 0)] > dum {/' Banded FAIL:src_decompose
 mutate "statement order: banded swap before index store"  src/banded.rs 's/(index\[ k \] = i \+ 1;\s*)(.*?)(if i != k \{.*?\}\s*\}\s*)(for i in k \+ 1\.\.l)/$3$1$2$4/s' Banded FAIL:src_decompose
-mutate "unsupported construct: iterator sum in norm_1"    src/vector/functions.rs 's/let mut result = T::zero\(\);\s*for i in 0\.\.self\.size\(\) \{\s*result \+= self\.vec\[i\]\.abs\(\);\s*\}\s*result/self.vec.iter().fold( T::zero(), |a, x| a + x.abs() )/' Vector FAIL:src_norm_1
+mutate "unsupported construct: iterator sum in norm_1"    src/vector/functions.rs 's/let mut result = T::zero\(\);\s*for i in 0\.\.self\.size\(\) \{\s*result \+= self\.vec\[i\]\.abs\(\);\s*\}\s*result/self.vec.iter().fold( T::zero(), |a, x| a + x.abs() )/' Vector TIEBROKEN
 mutate "harmless: rename local xj -> xjj in backsolve"    src/matrix/solve.rs 's/let xj = x\[ j \];\s*x\[ k \] -= self\[\(k,j\)\] \* xj;/let xjj = x[ j ];\n                x[ k ] -= self[(k,j)] * xjj;/' Solve PASS
 mutate "harmless: rename local result -> acc in dot"      src/vector/functions.rs 's/let mut result: T = T::zero\(\);\s*for i in 0\.\.self\.size\(\) \{\s*result \+= self\.vec\[i\] \* w\.vec\[i\];\s*\}\s*result/let mut acc: T = T::zero();\n        for i in 0..self.size() {\n            acc += self.vec[i] * w.vec[i];\n        }\n        acc/' Vector PASS
 # restore the regenerated files from the unmodified scratch tree
